@@ -87,6 +87,15 @@ class Oracle:
                 if any(l in ly for l in lx):
                     return ("err",)
                 return put(a[0], x + y)
+        if op in ("dimadd", "dimadd2"):
+            # `+` refuses overlapping letters whatever stands on its left
+            d = self.dims.get(a[1])
+            y = S.get(a[2]) if op == "dimadd" else ([self.dims[a[2]]] if a[2] in self.dims else None)
+            if d is None or y is None:
+                return None
+            if letter(d) in [letter(e) for e in y]:
+                return ("err",)
+            return put(a[0], [d] + list(y))
         if op == "subset":
             x = S.get(a[1])
             if x is None:
